@@ -217,6 +217,17 @@ def r1(ctx):
                          f"the recorded {key} (the encoding then depends on the new data, not on the recorded state)")
         else:
             ctx.ok("C04.R1", inst, f.where, f"{len(stores)} store(s) survive only as idempotent/frozen re-stores")
+    # a transform that takes `_state` only receives recorded state if stateful_eval recognises it: it must be wrapped by stateful_transform
+    for f, S in subs:
+        if S != "_state" or f.qualname.endswith((".wrapper", ".wrapped")) or not f.module.name.startswith("formulaic.transforms"):
+            continue
+        ctx.look()
+        deco = any(d.split("(")[0].split(".")[-1] == "stateful_transform" for d in f.decorators())
+        assigned = any(isinstance(v, ast.Call) and (dotted(v.func) or "").endswith("stateful_transform") and f.name in {n.id for n in ast.walk(v) if isinstance(n, ast.Name)}
+                       for v in f.module.assigns.values())
+        ctx.check(deco or assigned, "C04.R1", f"{f.qualname.replace('formulaic.', '')} is registered as a stateful transform", f.where, ctx.construct(f, text="stateful registration"),
+                  f"`{f.name}` takes `_state` but is not wrapped by stateful_transform: stateful_eval never records or supplies its state, so every replay re-fits on the new data")
+    wrapper_recursion(ctx, "C04.R1")
     # state is threaded unchanged through delegating transforms
     for q, callee in (("formulaic.transforms.scale.center", "scale"), ("formulaic.transforms.patsy_compat.standardize", "scale")):
         f = P.func(q)
@@ -224,6 +235,27 @@ def r1(ctx):
         ok = len(calls) == 1 and kwarg(calls[0], "_state") is not None and norm(kwarg(calls[0], "_state")) == "_state"
         ctx.check(ok, "C04.R1", f"{f.name} hands its own state dict to {callee}", f.where, ctx.construct(f, text="delegate state"),
                   f"{f.name} must call {callee}(..., _state=_state) with the same dictionary")
+
+
+def wrapper_recursion(ctx, rule: str):
+    """The dict fan-out of the stateful wrapper calls itself per column with the SAME positional and keyword arguments and the column's own state."""
+    P = ctx.project
+    w = P.func("formulaic.utils.stateful_transforms.stateful_transform").locals_named("wrapper")
+    rec = [c for c in ast.walk(w.node) if isinstance(c, ast.Call) and dotted(c.func) == "wrapper"]
+    ctx.floor(rule, len(rec), 1, "recursive wrapper calls")
+    for c in rec:
+        ctx.look()
+        star = [norm(a.value) for a in c.args if isinstance(a, ast.Starred)]
+        dstar = sorted(norm(k.value) for k in c.keywords if k.arg is None)
+        st = kwarg(c, "_state")
+        ok = norm(c.args[0]) == "datum" and star == ["args"] and dstar == ["extra_params", "kwargs"] and st is not None and norm(st) == "statum"
+        ctx.check(ok, rule, "per-column recursion of the stateful wrapper forwards *args, **kwargs, the injected parameters and the column's state", w.module.line(c),
+                  ctx.construct(w, text="wrapper recursion"),
+                  f"recursive call is `{norm(c)[:120]}`: options such as ddof / center / degree would silently fall back to their defaults for multi-column input")
+    fin = [c for c in ast.walk(w.node) if isinstance(c, ast.Call) and dotted(c.func) == "func"]
+    ok = len(fin) == 1 and [norm(a) for a in fin[0].args] == ["data", "*args"] and "**kwargs" in norm(fin[0]) and "**extra_params" in norm(fin[0]) and "'_state': _state" in norm(fin[0])
+    ctx.check(ok, rule, "the wrapped transform receives the data, all arguments, the injected parameters and the state", w.where, ctx.construct(w, text="wrapper call"),
+              f"final call is `{norm(fin[0])[:140] if fin else None}`")
 
 
 def _is_reduction_call(c: ast.Call, red_locals: Set[str]) -> bool:
